@@ -90,10 +90,9 @@ def ident(R, ctx):
         R.ob(rid, "complete_table_entry|bracket-fallback", ok, ctx.where(fn), "non-identifier keys become TableIndexEntry (`[\"key\"] = v`): %s" % ok)
 
 
-def keyword(R, ctx):
+def keyword(R, ctx, rid="C14.keyword"):
     """is_valid_identifier on the finite tables that define a Lua name: reserved words and character classes."""
     from .. import peval
-    rid = "C14.keyword"
     lib = ctx.lib
     R.rule(rid, "is_valid_identifier, evaluated from its typed tree: false for each of the 21 Lua reserved words and for the empty string; for "
                 "every ASCII character c, a one-character name `c` is refused unless c is a letter or `_`, and `a`+c is refused unless c is a "
@@ -228,7 +227,7 @@ def bracket(R, ctx):
     if not params:
         params = [n["var"] for n in thir.walk(body) if n.get("k") == "Var"][:1]
     try:
-        table = {b: bool(c02.eval_char_fn(body, params[:1], b, None)) for b in range(256)}
+        table = {b: bool(c02.char_pred(ctx, nq, params[:1], b, None)) for b in range(256)}
     except Exception as ex:  # unrecognised shape: fail closed
         R.require(rid, "anchor:table", False, ctx.where(nq), "needs_quoted_string is not a pure byte predicate this rule can expand: %s" % ex)
         return
@@ -445,3 +444,7 @@ def run(R, ctx):
     bracket(R, ctx)
     data_values(R, ctx)
     native_value(R, ctx)
+    # a key that is not an identifier is written `[<string>]`: with a long-bracket string the `[` `[[` pair (and every other pair of
+    # adjacent tokens of the table written for the data) must be kept apart by the separation table the generators share (as C02.fuse)
+    from . import c02
+    c02.fuse(R, ctx, rid="C14.fuse")
